@@ -96,6 +96,34 @@ theorem loop_spec (step : Nat → Vec → Vec) (s m : Nat) (hs : 0 < s) :
       have e : (idx + j) * s - i = ((idx + j) * s - (i + 1)) + 1 := by omega
       rw [e, iter_succ_left]
 
+theorem iter_add (step : Nat → Vec → Vec) (i a b : Nat) (y : Vec) :
+    iter step i (a + b) y = iter step (i + a) b (iter step i a y) := by
+  induction a generalizing i y with
+  | zero => simp [iter]
+  | succ a ih =>
+    rw [show a + 1 + b = (a + b) + 1 by omega, iter_succ_left, ih, iter_succ_left]
+    congr 1; omega
+
+theorem scanOuter_spec (step : Nat → Vec → Vec) (s : Nat) (y0 : Vec) :
+    ∀ (n j : Nat), scanOuter step s n (j * s) (iter step 0 (j * s) y0)
+      = (List.range n).map (fun k => iter step 0 ((j + k) * s) y0) := by
+  intro n
+  induction n with
+  | zero => intro j; simp [scanOuter]
+  | succ n ih =>
+    intro j
+    rw [scanOuter, List.range_succ_eq_map, List.map_cons, List.map_map]
+    congr 1
+    have h0 : True := trivial
+    · have h1 : j * s + s = (j + 1) * s := by rw [Nat.add_mul]; simp
+      have h2 : iter step (j * s) s (iter step 0 (j * s) y0) = iter step 0 ((j + 1) * s) y0 := by
+        rw [← h1, iter_add]; simp
+      rw [h1, h2, ih (j + 1)]
+      apply List.map_congr_left
+      intro k _
+      simp only [Function.comp]
+      congr 2; omega
+
 theorem pyRound_int (n : Int) : pyRound (n : Rat) = n := by
   unfold pyRound
   simp only [Rat.floor_intCast]
